@@ -1013,7 +1013,7 @@ pub fn run(cfg: &Cfg) -> i32 {
          ParkRules; distinct = realised (kind, variant, k, sub, snap). B: stress — 1–32 subscribers attaching at \
          random instants to concurrently producing sessions/tasks/threads with seeded noise at the emit/stream \
          hooks; distinct = interleaving signature of cases with a mid-stream join. C: burst — producer emits more \
-         than the 16 384-slot channel holds while the subscriber does not read. Oracle per subscriber: seqs \
+         than the 16 384-slot channel holds while the subscriber does not read. D: joins after the thread's sidecar was lost (deleted / torn / one line short): the first reader rebuilds it, stretched by a per-line delay, while an appender writes to the thread; the rebuilding reader and a subscriber attaching afterwards are judged. Oracle per subscriber: seqs \
          strictly increasing, no repeat, every frame JSON-equal to the log's, no seq missing below the highest \
          delivered one; frames of the tail not delivered within the grace window are inconclusive, not violations.",
     );
@@ -1086,6 +1086,17 @@ pub fn run(cfg: &Cfg) -> i32 {
         if cfg.mine(base + j as u64) {
             burst_case(&mut cx, &mut r, *k);
         }
+    }
+
+    // D. joins after a lost thread sidecar (rebuild racing with appends)
+    let rr = cfg.tier.pick(24u64, 400u64);
+    for j in 0..rr {
+        let i = base + 1000 + j;
+        if only_burst || !cfg.mine(i) || r.elapsed() > cfg.budget_s * 0.78 {
+            continue;
+        }
+        let mut rng = cfg.case_rng(i);
+        rebuild_race_case(&mut cx, &mut r, i, &mut rng);
     }
 
     // B. stress until the budget is used
@@ -1403,6 +1414,179 @@ fn burst_case(cx: &mut Ctx, r: &mut Report, kind: Kind) {
         r.count("subscribers_exactly_once_in_order", 1);
     }
     r.sample(witness);
+}
+
+
+// ---------------------------------------------------------------------------------------------
+// D. joins after the thread's history source (the per-thread sidecar) was lost: the first reader makes the
+// store rebuild it from the log while an appender writes to the same thread; a subscriber that attaches
+// afterwards (and one that attached as the rebuilding reader) must still see every frame. The rebuild is
+// stretched with a delay per rewritten line so that an append which is allowed to run next to it does.
+
+fn rebuild_race_case(cx: &mut Ctx, r: &mut Report, idx: u64, rng: &mut Rng) {
+    let s = cx.s.clone();
+    s.reset();
+    let n0 = 30 + rng.usize(cx.cfg.tier.pick(220, 900));
+    let fault = rng.below(4);
+    let fault_name = ["delete_thread_sidecars", "delete_cache_dir", "tear_full_sidecar", "drop_last_sidecar_line"][fault as usize];
+    let reader_is_subscriber = rng.bool();
+    let racing_appends = 1 + rng.usize(3);
+    let line_delay_us = *rng.pick(&[40u64, 120, 400]);
+    type Out = (String, Vec<(&'static str, SubOut)>, Option<Vec<Value>>, bool, u64);
+    let res: Result<Out, String> = cx.rt.block_on(async {
+        let w = World::new()?;
+        let st = w.app.store();
+        let id = st.ensure_default().map_err(|e| format!("ensure_default: {e}"))?;
+        for i in 0..n0 {
+            st.append_message(&id, "rv".into(), "c06".into(), format!("pre{i}")).map_err(|e| format!("append: {e}"))?;
+        }
+        // the fault: only cache files are touched
+        let dir = w.store.streams_dir();
+        let mine: Vec<std::path::PathBuf> = std::fs::read_dir(&dir)
+            .map(|rd| rd.flatten().map(|e| e.path()).filter(|p| p.file_name().map(|n| n.to_string_lossy().starts_with(&id)).unwrap_or(false)).collect())
+            .unwrap_or_default();
+        let full = mine.iter().filter(|p| p.is_file()).max_by_key(|p| std::fs::metadata(p).map(|m| m.len()).unwrap_or(0)).cloned();
+        match fault {
+            0 => {
+                for p in &mine {
+                    let _ = std::fs::remove_file(p);
+                }
+            }
+            1 => {
+                let _ = std::fs::remove_dir_all(&dir);
+            }
+            2 => {
+                if let Some(f) = &full {
+                    if let Ok(b) = std::fs::read(f) {
+                        let cut = b.len().saturating_sub(7);
+                        let _ = std::fs::write(f, &b[..cut]);
+                    }
+                }
+            }
+            _ => {
+                if let Some(f) = &full {
+                    if let Ok(b) = std::fs::read(f) {
+                        let body = &b[..b.len().saturating_sub(1)];
+                        let cut = body.iter().rposition(|c| *c == b'\n').map(|p| p + 1).unwrap_or(0);
+                        let _ = std::fs::write(f, &b[..cut]);
+                    }
+                }
+            }
+        }
+        let in_rebuild = Arc::new(AtomicBool::new(false));
+        let lines = Arc::new(AtomicU64::new(0));
+        {
+            let f = in_rebuild.clone();
+            let l = lines.clone();
+            let tid = id.clone();
+            s.set_custom(Some(Arc::new(move |p: &str, c: &str| {
+                if !p.starts_with("cache.rebuild.") || !c.contains(tid.as_str()) {
+                    return;
+                }
+                if p == "cache.rebuild.created" {
+                    f.store(true, Ordering::SeqCst);
+                } else if p == "cache.rebuild.line" {
+                    l.fetch_add(1, Ordering::Relaxed);
+                    std::thread::sleep(Duration::from_micros(line_delay_us));
+                }
+            })));
+        }
+        let mut subs: Vec<(&'static str, tokio::task::JoinHandle<SubOut>, Arc<SubCtl>)> = Vec::new();
+        // the reader that meets the lost cache
+        let reader = if reader_is_subscriber {
+            let ctl = SubCtl::new(500);
+            subs.push(("rebuilding_reader", tokio::spawn(subscribe_and_read(w.app.clone(), Kind::Thread, id.clone(), ctl.clone())), ctl));
+            None
+        } else {
+            let (st2, id2) = (st.clone(), id.clone());
+            Some(tokio::task::spawn_blocking(move || st2.replay_events(&id2).map(|e| e.len()).map_err(|e| e.to_string())))
+        };
+        // the appender: starts as soon as the rebuild has read the log (or after 1.5 s if no rebuild is seen)
+        let (st3, id3, f3) = (st.clone(), id.clone(), in_rebuild.clone());
+        let appender = tokio::task::spawn_blocking(move || {
+            let t0 = Instant::now();
+            while !f3.load(Ordering::SeqCst) && t0.elapsed() < Duration::from_millis(1500) {
+                std::thread::sleep(Duration::from_micros(50));
+            }
+            for j in 0..racing_appends {
+                let _ = st3.append_message(&id3, "rv".into(), "c06".into(), format!("racing{j}"));
+            }
+        });
+        if let Some(h) = reader {
+            let _ = tokio::time::timeout(Duration::from_secs(60), h).await.map_err(|_| "rebuilding reader did not return".to_string())?;
+        } else {
+            let c = subs[0].2.clone();
+            wait_for(Duration::from_secs(60), || if c.joined.load(Ordering::SeqCst) { Some(()) } else { None }).await;
+        }
+        tokio::time::timeout(Duration::from_secs(60), appender).await.map_err(|_| "appender did not return".to_string())?.map_err(|e| format!("join: {e}"))?;
+        s.set_custom(None);
+        let saw_rebuild = in_rebuild.load(Ordering::SeqCst);
+        // the late subscriber: attaches after everything is quiet, before the next append
+        let ctl = SubCtl::new(500);
+        subs.push(("late_subscriber", tokio::spawn(subscribe_and_read(w.app.clone(), Kind::Thread, id.clone(), ctl.clone())), ctl.clone()));
+        wait_for(Duration::from_secs(10), || if ctl.joined.load(Ordering::SeqCst) { Some(()) } else { None }).await;
+        // one live frame after the join: a hole in the history then lies below a delivered seq
+        st.append_message(&id, "rv".into(), "c06".into(), "after_join".into()).map_err(|e| format!("append: {e}"))?;
+        let log = w.stream_log(Kind::Thread, &id);
+        let last = log.as_ref().and_then(|l| (l.len() as u64).checked_sub(1));
+        let mut outs = Vec::new();
+        for (name, h, c) in subs {
+            c.finish(last);
+            let so = tokio::time::timeout(Duration::from_secs(60), h).await.map_err(|_| "subscriber did not return".to_string())?.map_err(|e| format!("join: {e}"))?;
+            outs.push((name, so));
+        }
+        Ok((id, outs, log, saw_rebuild, lines.load(Ordering::Relaxed)))
+    });
+    s.reset();
+    let (id, outs, log, saw_rebuild, lines) = match res {
+        Ok(x) => x,
+        Err(e) => {
+            r.inconclusive(&format!("rebuild race {idx}: {e}"));
+            return;
+        }
+    };
+    let Some(log) = log else {
+        r.inconclusive(&format!("rebuild race {idx}: log stream unreadable"));
+        return;
+    };
+    r.eval();
+    r.count("rebuild_race_cases", 1);
+    r.count(&format!("rebuild_race_fault:{fault_name}"), 1);
+    if saw_rebuild {
+        r.count("rebuild_race_cases_with_a_sidecar_rebuild_observed", 1);
+        r.count("rebuild_race_lines_rewritten_under_delay", lines);
+        r.distinct_str(&format!("rebuild_race/{fault_name}/reader_sub={reader_is_subscriber}/appends={racing_appends}"));
+    }
+    for (name, sub) in &outs {
+        let ver = compare(&id, &sub.frames, &log);
+        r.count("frames_received", ver.received as u64);
+        r.count("subscribers", 1);
+        let tag = "cache_rebuild_race";
+        let witness = json!({
+            "phase": "rebuild_race", "case": idx, "fault": fault_name, "subscriber": name, "messages_before_fault": n0,
+            "racing_appends": racing_appends, "reader_is_subscriber": reader_is_subscriber, "line_delay_us": line_delay_us,
+            "sidecar_rebuild_observed": saw_rebuild, "frames_in_log": log.len(), "frames_received": ver.received,
+            "lost": short(&ver.lost), "tail_missing": ver.tail_missing,
+        });
+        report_common(r, Kind::Thread, tag, sub, &ver, &witness);
+        if !ver.lost.is_empty() {
+            r.violation(
+                &format!("C06/frame_lost/thread/{tag}"),
+                &format!(
+                    "thread stream after a lost sidecar ({fault_name}): {name} never received seq {:?} although later seqs were delivered",
+                    short(&ver.lost)
+                ),
+                witness.clone(),
+            );
+        } else if ver.tail_missing > 0 {
+            r.inconclusive(&format!("rebuild race {idx}: {} frames at the end not delivered to {name} within the grace window", ver.tail_missing));
+        } else if ver.clean() {
+            r.count("subscribers_exactly_once_in_order", 1);
+        }
+        if idx % 16 == 0 {
+            r.sample(witness);
+        }
+    }
 }
 
 // ---------------------------------------------------------------------------------------------
